@@ -141,12 +141,16 @@ def last_samples(blocks: list, n: int):
     return [(x, y, w)]
 
 
-def close(real_vals, exp, tol):
+def close(real_vals, exp, tol, undefined_ok=False):
+    """`undefined_ok`: an entry whose oracle value is an undefined ratio (±inf / nan: the task's weighted target sum is 0)
+    is outside the comparison (ASSUMPTIONS) — the windowed class clamps the denominator, the non-windowed one divides."""
     if exp is None:
         return None
     if len(real_vals) != len(exp):
         return False
     for a, b in zip(real_vals, exp):
+        if undefined_ok and not math.isfinite(b):
+            continue
         if math.isnan(a) or math.isnan(b):
             if not (math.isnan(a) and math.isnan(b)):
                 return False
@@ -233,7 +237,7 @@ def check_stream(rep: Report, found: Found, cls, cfg, batches, progs):
             continue
         win = outs[-1]
         exp_w = oracle_updates(cls, cfg, batches[max(0, k - N):k])
-        c = close(vals(win), exp_w, tol)
+        c = close(vals(win), exp_w, tol, undefined_ok=(cls == "WindowedWeightedCalibration"))
         if c is None:
             rep.count(f"{cls}:oracle-undefined-window")
         elif not c:
@@ -241,7 +245,7 @@ def check_stream(rep: Report, found: Found, cls, cfg, batches, progs):
                       f"{cls}({cfg_label(cfg)}) after {k} updates: windowed {vals(win)} but non-windowed metric on the last {min(k, N)} updates = {exp_w}", hist)
         if life:
             exp_l = oracle_updates(cls, cfg, batches[:k])
-            c = close(vals(outs[0]), exp_l, tol)
+            c = close(vals(outs[0]), exp_l, tol, undefined_ok=(cls == "WindowedWeightedCalibration"))
             if c is None:
                 rep.count(f"{cls}:oracle-undefined-lifetime")
             elif not c:
